@@ -188,6 +188,24 @@ def Representable : FatType → FatValue → Prop
 instance (ft : FatType) (v : FatValue) : Decidable (Representable ft v) := by
   cases ft <;> cases v <;> unfold Representable <;> exact inferInstance
 
+/-- first raw value that does not fit the entry's value field (12 / 16 / 28 bits) -/
+def valLimit : FatType → Nat
+  | .fat12 => 4096
+  | .fat16 => 65536
+  | .fat32 => 268435456
+
+/-- the raw value of `v` fits the entry's value field, so writing it cannot spill into a neighbour's nibble (FAT12)
+    or into the reserved bits (FAT32) -/
+def FitsWidth (ft : FatType) (v : FatValue) : Prop := rawOfValue ft v < valLimit ft
+
+instance (ft : FatType) (v : FatValue) : Decidable (FitsWidth ft v) := by
+  unfold FitsWidth; exact inferInstance
+
+/-- FAT32: the reserved high nibble of a raw entry, in place; 0 for the other widths -/
+def topBits : FatType → Nat → Nat
+  | .fat32, raw => raw / 268435456 * 268435456
+  | _, _ => 0
+
 /-- all bytes are bytes -/
 def WfBytes (f : Array Nat) : Prop := ∀ i, rd f i < 256
 
